@@ -4,3 +4,11 @@ open RV.C11
 #print axioms path_nodup
 #print axioms path_terminates
 #print axioms zero_length_on_given_term
+#print axioms seq_fw_bw_agree
+#print axioms build_preserves_rel
+#print axioms path_correct_as_built
+#print axioms prefix_zero_pair_twice
+#print axioms prefix_falsy_end_ignored
+#print axioms prefix_seq_bw_loses_absent_end
+#print axioms prefix_neg_inverse_wrong
+#print axioms prefix_aggregate_duplicates
